@@ -18,6 +18,8 @@ fn main() {
         "random" => random(&a),
         "prog" => progs(&a),
         "lifecycle" => lifecycle_cmd(&a),
+        #[cfg(feature = "parallel")]
+        "async" => async_cmd(&a),
         _ => {
             eprintln!("usage: exec random ...");
             std::process::exit(2)
@@ -88,7 +90,13 @@ fn random(a: &Args) {
             let mode = modes[(k + i) % modes.len()];
             let mut panics = Vec::new();
             if npanic > 0.0 && rng.gen_bool(npanic) && !all_gids.is_empty() {
-                panics.push(*all_gids.choose(&mut rng).unwrap());
+                // thread-local systems (top level) are few: pick them on purpose now and then
+                let tls: Vec<usize> = r.rec.sys.iter().filter(|s| s.kind == "tl" && s.builder == r.top).map(|s| s.gid).collect();
+                if !tls.is_empty() && rng.gen_bool(0.3) {
+                    panics.push(*tls.choose(&mut rng).unwrap());
+                } else {
+                    panics.push(*all_gids.choose(&mut rng).unwrap());
+                }
                 if rng.gen_bool(0.25) {
                     panics.push(*all_gids.choose(&mut rng).unwrap());
                 }
@@ -230,4 +238,75 @@ fn lifecycle_cmd(a: &Args) {
     }
     w.flush().unwrap();
     println!("{}", json!({"programs":count,"systems":nsys,"events":nev,"max_batch_depth":maxdepth,"samples":samples}));
+}
+
+/// exec async ... : random programs on the AsyncDispatcher, random call sequences of the caller
+#[cfg(feature = "parallel")]
+fn async_cmd(a: &Args) {
+    use shredh::execx::asyncx::{record_async, run_session};
+    let seed: u64 = a.num("seed", 1);
+    let count: usize = a.num("count", 30);
+    let ncalls: usize = a.num("calls", 12);
+    let out = a.get("out").expect("--out");
+    let mut w = BufWriter::new(File::create(out).unwrap());
+    let mut rng = StdRng::seed_from_u64(seed);
+    let mut base = GenCfg::basic(a.num("nmin", 2), a.num("nmax", 14), a.num("nres", 6));
+    base.p_tl = a.num("ptl", 0.12);
+    base.p_batch = a.num("pbatch", 0.06);
+    base.max_depth = 1;
+    // a panic in a spawned job must not abort the process: it is data
+    let p = Arc::new(
+        rayon::ThreadPoolBuilder::new()
+            .num_threads(a.num("pool", 12))
+            .panic_handler(|_| {})
+            .build()
+            .unwrap(),
+    );
+    let (mut nsys, mut nev, mut ncall) = (0usize, 0usize, 0usize);
+    let mut samples = Vec::new();
+    for k in 0..count {
+        let mut cfg = base.clone();
+        cfg.n_res = rng.gen_range(2..=base.n_res.max(2));
+        let prog = gen_prog(&mut rng, &cfg, 0, "");
+        let mut res = Vec::new();
+        prog.resources(&mut res);
+        let mut s = record_async(&prog, Variant::identity(&res), k + 1, p.clone());
+        let mut ops: Vec<String> = Vec::new();
+        let n = rng.gen_range(3..=ncalls);
+        let mut in_flight = false;
+        for _ in 0..n {
+            let x: f64 = rng.gen();
+            let op = if x < 0.3 {
+                "dispatch"
+            } else if x < 0.55 {
+                "running"
+            } else if x < 0.7 {
+                "wait"
+            } else if x < 0.8 {
+                "wait_without_tl"
+            } else if x < 0.87 {
+                "world"
+            } else if x < 0.94 {
+                "world_mut"
+            } else {
+                "setup"
+            };
+            if op == "dispatch" {
+                in_flight = true;
+            }
+            ops.push(op.to_string());
+        }
+        let _ = in_flight;
+        let st = run_session(&mut s, &ops, rng.gen(), a.num("quiet-us", 300), a.num("hold-ms", 3));
+        let _ = st;
+        ncall += ops.len();
+        nsys += prog.count_systems();
+        nev += s.rec.events.len();
+        write_events(&mut w, &s.rec.events);
+        if samples.len() < 2 {
+            samples.push(json!({"prog": prog, "calls": ops}));
+        }
+    }
+    w.flush().unwrap();
+    println!("{}", json!({"programs":count,"systems":nsys,"events":nev,"calls":ncall,"samples":samples}));
 }
